@@ -376,6 +376,7 @@ func (w *World) unary(ctx context.Context, full string, md protoreflect.MethodDe
 		return nil, status.Errorf(codes.FailedPrecondition, "sim: no script for request (method %s)", full)
 	}
 	l := w.enter(ctx, rs)
+	rs.servedMethods = append(rs.servedMethods, full)
 	slot := rs.handlerSlot(w.tag)
 	l.Recv = append(l.Recv, proto.Clone(req))
 	l.RecvCalls++
